@@ -41,8 +41,12 @@ impl TrySend for ZmqFramedWrite {
         match self.as_mut().poll_ready(&mut cx) {
             Poll::Ready(Ok(())) => {
                 self.as_mut().start_send(item)?;
-                let _ = self.as_mut().poll_flush(&mut cx); // ignore result just hope that it flush eventually
-                Ok(())
+                // Best effort: a flush that cannot complete now is finished by a later
+                // call, but a failed one means the connection is gone.
+                match self.as_mut().poll_flush(&mut cx) {
+                    Poll::Ready(Err(e)) => Err(e.into()),
+                    _ => Ok(()),
+                }
             }
             Poll::Ready(Err(e)) => Err(e.into()),
             Poll::Pending => Err(ZmqError::BufferFull("Sink is full")),
